@@ -32,6 +32,8 @@
 (*                  it (a one-name policy compiled for that table)         *)
 (*   table          the exported maps read directly, both directions       *)
 (*   text           Action.String / MarshalText                            *)
+(*   parse          Action.Unpack / Operation.Unpack of a name in some     *)
+(*                  letter case, or of a word that is no name              *)
 (* Policy values: [shape, act, val] - siblings differ in ONE field: the    *)
 (* data bits of the action (which Action.String does not print), the       *)
 (* operand, the shape.                                                     *)
@@ -75,6 +77,7 @@ Calls ==
   \cup [op : {"getinfo"}, name : {"", "amd64", "ARM64", "mips"}]
   \cup [op : {"resolve", "table"}, arch : Archs, name : Names]
   \cup [op : {"text"}, act : Acts]
+  \cup [op : {"parse"}, text : {"errno", "ERRNO", "Allow", "permit", "Equal", "bitsset", "like"}]
 
 EmptyMem == [progs |-> <<>>, archs |-> {}, last |-> <<>>, alias |-> {}]
 \* the program a policy compiles to is identified by the policy, the table and whether it starts with the architecture check
@@ -112,6 +115,10 @@ Out(c, mem, env) ==
     [] c.op = "table" ->
          [out |-> (c.name \in Table[c.arch] \/ <<c.arch, c.name>> \in mem.alias), mem |-> mem]
     [] c.op = "text" -> [out |-> PrintAct(c.act), mem |-> mem]
+    [] c.op = "parse" ->
+         [out |-> CASE c.text \in {"errno", "ERRNO"} -> "errno" [] c.text = "Allow" -> "allow" [] c.text = "Equal" -> "Equal"
+                    [] c.text = "bitsset" -> "BitsSet" [] OTHER -> "rejected",
+          mem |-> mem]
 
 VARIABLES mem, env, hist, outs
 vars == <<mem, env, hist, outs>>
